@@ -230,6 +230,96 @@ pub fn cmd_run(seed: u64, runs_per_subject: usize, growth_log2: u32, out: &str) 
             }
         }
     }
+    // ---- FlatStack: the vector index storage is part of the discipline (merge_capacity pre-sizes region AND
+    // indices; copy and extend - which reserves by size hint on every call - grow both logarithmically)
+    for st in crate::stack::stack_subjects() {
+        let plain = is_plain(&st.shape);
+        let scaps = |s: &dyn crate::stack::StackT| -> Vec<usize> { s.heap().iter().map(|p| p.1).collect() };
+        let mut ev = |w: &mut std::io::BufWriter<std::fs::File>, run: u64, mut v: Value| {
+            v["run"] = json!(run);
+            writeln!(w, "{}", v).unwrap();
+        };
+        // one measured step on a stack: Ok(allocator calls) or the panic message
+        let mut step = |w: &mut std::io::BufWriter<std::fs::File>, run: u64, stacks: &mut Vec<Box<dyn crate::stack::StackT>>, s: usize, vs: &[Value], as_extend: bool, log_all: bool| -> bool {
+            let cb = scaps(&*stacks[s]);
+            let r = {
+                let sl = &mut stacks[s];
+                guarded(|| if as_extend { sl.extend_measured(vs) } else { sl.copy_measured(&vs[0]) })
+            };
+            match r {
+                Ok(n) => {
+                    let ca = scaps(&*stacks[s]);
+                    if log_all || ca != cb || n != 0 {
+                        let v = if log_all { vs[0].clone() } else { json!([]) };
+                        ev(w, run, json!({"ev": "push", "s": s + 1, "v": v, "cb": cb, "ca": ca, "allocs": n, "panic": false, "measured": true, "form": if as_extend { "extend" } else { "copy" }}));
+                    }
+                    true
+                }
+                Err(m) => {
+                    ev(w, run, json!({"ev": "push", "s": s + 1, "v": [], "cb": cb, "ca": cb, "allocs": 0, "panic": true, "msg": m, "measured": true, "form": if as_extend { "extend" } else { "copy" }}));
+                    false
+                }
+            }
+        };
+        if st.ic == "vec" && is_structural(&st.shape) {
+            for _ in 0..runs_per_subject {
+                run += 1;
+                let mut stacks: Vec<Box<dyn crate::stack::StackT>> = (0..3).map(|_| (st.make)()).collect();
+                writeln!(w, "{}", json!({"ev": "reset", "subj": st.name, "plain": plain, "nslots": 3, "run": run})).unwrap();
+                let mut contents: Vec<Value> = vec![];
+                let mut alive = true;
+                for si in 0..2 {
+                    let n = [0usize, 1, 3, 9, 20][rng.gen_range(0..5)];
+                    for _ in 0..n {
+                        let v = gen_value(&st.shape, &mut rng, false);
+                        contents.push(v.clone());
+                        alive = alive && step(&mut w, run, &mut stacks, si, &[v], false, true);
+                    }
+                }
+                if !alive {
+                    continue;
+                }
+                let m = {
+                    let refs: Vec<&dyn crate::stack::StackT> = vec![&*stacks[0], &*stacks[1]];
+                    guarded(|| stacks[2].merge_capacity(&refs))
+                };
+                match m {
+                    Ok(m) => stacks[2] = m,
+                    Err(_) => continue,
+                }
+                writeln!(w, "{}", json!({"ev": "merge", "d": 3, "srcs": [1, 2], "run": run})).unwrap();
+                for v in &contents {
+                    if !step(&mut w, run, &mut stacks, 2, &[v.clone()], false, true) {
+                        break;
+                    }
+                }
+                for _ in 0..rng.gen_range(0..3) {
+                    let v = gen_value(&st.shape, &mut rng, false);
+                    if !step(&mut w, run, &mut stacks, 2, &[v], false, true) {
+                        break;
+                    }
+                }
+            }
+        }
+        for (lg, batched) in [(6u32, false), (6, true), (growth_log2, false), (growth_log2, true)] {
+            run += 1;
+            let mut stacks: Vec<Box<dyn crate::stack::StackT>> = vec![(st.make)()];
+            writeln!(w, "{}", json!({"ev": "reset", "subj": st.name, "plain": plain, "nslots": 1, "run": run})).unwrap();
+            let n = 1usize << lg;
+            let mut done = 0usize;
+            let mut alive = true;
+            while done < n && alive {
+                let k = if batched { rng.gen_range(1..4usize).min(n - done) } else { 1 };
+                let vs: Vec<Value> = (0..k).map(|_| gen_value(&st.shape, &mut rng, false)).collect();
+                alive = step(&mut w, run, &mut stacks, 0, &vs, batched, false);
+                done += k;
+            }
+            if alive {
+                let caps = scaps(&*stacks[0]);
+                writeln!(w, "{}", json!({"ev": "end", "s": 1, "n": n, "caps": caps, "run": run})).unwrap();
+            }
+        }
+    }
     w.flush().unwrap();
     eprintln!("alloc-run: {run} runs");
 }
